@@ -259,9 +259,11 @@ CLAIMED["C19"] = dict(
          "partial pivoting, the documented row_scale rule) - exhaustively for all 256 2x2 matrices over "
          "{1,2,3,100}; multiplying rows by powers of two (2^-30..2^30) leaves the pivot sequence unchanged for a "
          "2x2 and a 3x3 witness matrix (the 3x3 one displaces the scaled row by a swap); row_index is a permutation; for every finite 2x2 matrix with a zero first column or row the "
-         "returned determinant is 0 or non-normal, so the call sites' singularity test fires (full double domain).",
+         "returned determinant is 0 or non-normal, so the call sites' singularity test fires (full double domain); and the "
+         "a/b -> m reduction of vnacal_new_add_* (kernel by assumed contract returning ANY determinant) refuses a zero or "
+         "NaN determinant with one MATH/EDOM report and records nothing, else stores the solution of frequency f at f.",
     note="residual size, QR orthogonality, least-squares minimality, n > 2, 'astronomically large output', and that "
-         "every call site tests the determinant: NOT covered; complex compiled as double",
+         "the determinant tests of solve_simple/solve_auto: NOT covered (apply: C01 apply_frame); complex compiled as double",
     design="DESIGN.md 3 C19, 8.18",
     technique="CBMC contract harnesses on the real _vnacommon_lu (pivot rule, row-scaling invariance, zero pivot)",
 )
